@@ -334,6 +334,9 @@ def _verify_cases(argtuple):
     outs = [S.solve_one(j) for j in jobs]
     rep.solve_s = round(time.time() - t1, 3)
     by_idx = {o['idx']: o for o in outs}
+    smt2_by_idx = {j[0]: (j[1], j[2]) for j in jobs}
+    job_text = {id(o): smt2_by_idx.get(o['idx']) for o in outs}
+    weak_kept = {}
     for i, (o, names) in enumerate(meta):
         out = by_idx.get(i)
         if isinstance(o, tuple):
@@ -359,8 +362,14 @@ def _verify_cases(argtuple):
                 ent['backend'].append(be)
             rep.by_backend[be] += 1
         elif v == 'sat':
-            rep.refuted.append({'obligation': o.name, 'kind': o.kind, 'case': o.tag.get('case'), 'site': o.site,
-                                'note': o.note, 'model': out.get('model'), 'weak': bool(out.get('weak'))})
+            rec = {'obligation': o.name, 'kind': o.kind, 'case': o.tag.get('case'), 'site': o.site,
+                   'note': o.note, 'model': out.get('model'), 'weak': bool(out.get('weak'))}
+            if rec['weak'] and weak_kept.get(o.name, 0) < 6:
+                # a candidate found WITHOUT the lemma axioms: keep the full query, the driver re-solves it with a large budget
+                # (cvc5, z3 x4) before it gives the obligation up as undecided
+                weak_kept[o.name] = weak_kept.get(o.name, 0) + 1
+                rec['smt2'] = job_text.get(id(out))
+            rep.refuted.append(rec)
         else:
             rep.undecided.append({'obligation': o.name, 'case': o.tag.get('case'), 'reason': out.get('reason'),
                                   'z3': out['z3'], 'cvc5': out['cvc5']})
